@@ -51,6 +51,12 @@ type Spec struct {
 	// which a new capture file starts. File i holds packets [Cuts[i-1],Cuts[i]).
 	Cuts []int `json:"cuts"`
 	NG   bool  `json:"ng,omitempty"` // write pcapng instead of pcap
+	// Jumble: the first packet of every capture file is written a few records
+	// later (behind packets of other conversations with later, distinct
+	// timestamps): the file is not sorted by time and its oldest packet is not
+	// its first, as in captures merged from several interfaces or written in
+	// arrival order by the PCAP-over-IP receiver
+	Jumble bool `json:"jumble,omitempty"`
 	// TickUS > 0: the tap's clock is coarse, timestamps are rounded down to a
 	// multiple of TickUS (many equal timestamps, also across file cuts)
 	TickUS int64 `json:"tick,omitempty"`
@@ -367,6 +373,19 @@ func Build(spec *Spec) *Capture {
 		}
 		capt.Names = append(capt.Names, fmt.Sprintf("%scap%03d.%s", spec.Prefix, fi, ext))
 		start = b
+	}
+	if spec.Jumble {
+		for _, f := range capt.Files {
+			j := 0
+			for j+1 < len(f) && j < 5 && f[j+1].Conv != f[0].Conv && f[j+1].TimeUS > f[j].TimeUS {
+				j++
+			}
+			if j > 0 {
+				p := f[0]
+				copy(f[0:j], f[1:j+1])
+				f[j] = p
+			}
+		}
 	}
 	seenFirst := make([]bool, len(truth))
 	for fi, f := range capt.Files {
